@@ -30,6 +30,10 @@ Proof.
   intros [[] [] [] [] [] st]; cbn; intros Hok Hn; try discriminate; try lia; auto.
 Qed.
 
+(** total_ordering's root is one of the supplied functions. *)
+Lemma root_supplied_l : forall c, wants_total_ordering c = true -> supplied c (root c) = true.
+Proof. intros [[] [] [] [] [] st]; cbn; intros H; try reflexivity; discriminate. Qed.
+
 Section Laws.
 Variable V : Type.
 Variables feq flt fle fgt fge : V -> V -> tri.
@@ -38,34 +42,45 @@ Variable same_cls : V -> V -> bool.
 Notation meth := (meth V feq flt fle fgt fge same_cls).
 Notation fn := (fn V feq flt fle fgt fge).
 Notation is_comparable_to := (is_comparable_to V same_cls).
+Notation make_operator := (make_operator V same_cls).
+Notation op_eq := (op_eq V feq same_cls).
+Notation op_ne := (op_ne V feq same_cls).
+Notation meth_eq := (meth_eq V feq same_cls).
+Notation meth_ne := (meth_ne V feq same_cls).
 
 (** A supplied function is what the operator computes with, on the two wrapped
-    values in this order; total_ordering never replaces it. *)
+    values in this order, called exactly once - and not at all when the operands
+    are not comparable; total_ordering never replaces it. *)
 Lemma uses_supplied_l : forall c o a b, supplied c o = true ->
-  meth c o a b = if is_comparable_to c a b then fn o (w_val V a) (w_val V b) else NI.
+  meth c o a b = if is_comparable_to c a b
+                 then (fn o (w_val V a) (w_val V b), [(o, w_val V a, w_val V b)])
+                 else (NI, []).
 Proof.
   intros c o a b H. destruct o; cbn in H; try discriminate;
-    unfold ModelCmp.meth, meth_eq, meth_order, make_operator; cbn [supplied ModelCmp.fn];
+    unfold ModelCmp.meth, ModelCmp.meth_eq, meth_order, ModelCmp.make_operator;
+    cbn [supplied ModelCmp.fn];
     rewrite H; destruct (is_comparable_to c a b); reflexivity.
 Qed.
 
-Lemma ne_negates_eq_l : forall c a b, meth c ONe a b = tri_not (meth c OEq a b).
+Lemma ne_negates_eq_l : forall c a b,
+  meth c ONe a b = (tri_not (fst (meth c OEq a b)), snd (meth c OEq a b)).
 Proof.
-  intros. unfold ModelCmp.meth, meth_ne. destruct (meth_eq V feq same_cls c a b); reflexivity.
+  intros. unfold ModelCmp.meth, ModelCmp.meth_ne. destruct (meth_eq c a b); reflexivity.
 Qed.
 
-(** With require_same_type, every one of the six methods answers
-    NotImplemented for two (distinct) objects wrapping values of different classes. *)
+(** With require_same_type, every one of the six methods - supplied or derived -
+    answers NotImplemented for two (distinct) objects wrapping values of
+    different classes, and NO supplied function is consulted (empty trace). *)
 Lemma type_mismatch_notimplemented_l : forall c o a b,
   same_type c = true ->
   same_cls (w_val V a) (w_val V b) = false -> same_cls (w_val V b) (w_val V a) = false ->
   w_id V a <> w_id V b ->
-  meth c o a b = NI.
+  meth c o a b = (NI, []).
 Proof.
   intros c o a b Hst Hab Hba Hid. apply Nat.eqb_neq in Hid.
   assert (Hid' : (w_id V b =? w_id V a) = false) by (rewrite Nat.eqb_sym; exact Hid).
-  unfold ModelCmp.meth, meth_order, op_eq, op_ne, meth_ne, meth_eq, make_operator,
-    ModelCmp.is_comparable_to.
+  unfold ModelCmp.meth, meth_order, ModelCmp.op_eq, ModelCmp.op_ne, ModelCmp.meth_ne,
+    ModelCmp.meth_eq, ModelCmp.make_operator, ModelCmp.is_comparable_to.
   rewrite Hst, Hab, Hba, Hid, Hid'. cbn [negb].
   destruct c as [[] [] [] [] [] st]; destruct o; reflexivity.
 Qed.
@@ -74,9 +89,81 @@ Qed.
 Lemma no_requirement_l : forall c a b, same_type c = false -> is_comparable_to c a b = true.
 Proof. intros c a b H. unfold ModelCmp.is_comparable_to. now rewrite H. Qed.
 
+(** ** "Compare through the supplied functions": every call any method makes is
+    a call of a SUPPLIED function on the two wrapped values (in either order),
+    and only between comparable operands. *)
+Definition entry_ok (c : cfg) (a b : wobj V) (e : cop * V * V) : Prop :=
+  let '(o, x, y) := e in
+  supplied c o = true /\
+  ((x = w_val V a /\ y = w_val V b /\ is_comparable_to c a b = true) \/
+   (x = w_val V b /\ y = w_val V a /\ is_comparable_to c b a = true)).
+
+Lemma entry_ok_sym c a b e : entry_ok c a b e -> entry_ok c b a e.
+Proof. destruct e as [[o x] y]. cbn. tauto. Qed.
+
+Lemma make_operator_trace c o a b : supplied c o = true ->
+  Forall (entry_ok c a b) (snd (make_operator o (fn o) c a b)).
+Proof.
+  intros H. unfold ModelCmp.make_operator.
+  destruct (is_comparable_to c a b) eqn:E; cbn; constructor; [|constructor].
+  cbn. auto.
+Qed.
+
+Lemma meth_eq_trace c a b : Forall (entry_ok c a b) (snd (meth_eq c a b)).
+Proof.
+  unfold ModelCmp.meth_eq. destruct (has_eq c) eqn:E; [|constructor].
+  apply (make_operator_trace c OEq a b). exact E.
+Qed.
+
+Lemma op_eq_trace c a b : Forall (entry_ok c a b) (snd (op_eq c a b)).
+Proof.
+  unfold ModelCmp.op_eq. pose proof (meth_eq_trace c a b) as H1.
+  pose proof (meth_eq_trace c b a) as H2.
+  destruct (meth_eq c a b) as [r1 t1]. destruct (meth_eq c b a) as [r2 t2]. cbn in *.
+  destruct r1; cbn; try assumption.
+  apply Forall_app. split; [assumption|].
+  eapply Forall_impl; [|exact H2]. intros e. apply entry_ok_sym.
+Qed.
+
+Lemma op_ne_trace c a b : Forall (entry_ok c a b) (snd (op_ne c a b)).
+Proof.
+  unfold ModelCmp.op_ne, ModelCmp.meth_ne. pose proof (meth_eq_trace c a b) as H1.
+  pose proof (meth_eq_trace c b a) as H2.
+  destruct (meth_eq c a b) as [r1 t1]. destruct (meth_eq c b a) as [r2 t2]. cbn in *.
+  destruct r1; cbn; try assumption.
+  apply Forall_app. split; [assumption|].
+  eapply Forall_impl; [|exact H2]. intros e. apply entry_ok_sym.
+Qed.
+
+Lemma derive_trace c a b r o res :
+  Forall (entry_ok c a b) (snd (derive V r o res (op_eq c a b) (op_ne c a b))).
+Proof.
+  pose proof (op_eq_trace c a b) as He. pose proof (op_ne_trace c a b) as Hn.
+  unfold derive. destruct res; try constructor; destruct r, o; try constructor; assumption.
+Qed.
+
+Lemma only_supplied_called_l : forall c o a b, Forall (entry_ok c a b) (snd (meth c o a b)).
+Proof.
+  intros c o a b.
+  assert (Hord : Forall (entry_ok c a b) (snd (meth_order V feq flt fle fgt fge same_cls c o a b))).
+  { unfold meth_order. destruct (supplied c o) eqn:Es.
+    - apply make_operator_trace. exact Es.
+    - destruct (wants_total_ordering c) eqn:Ew; [|constructor].
+      pose proof (make_operator_trace c (root c) a b (root_supplied_l c Ew)) as Hr.
+      pose proof (derive_trace c a b (root c) o) as Hd.
+      destruct (make_operator (root c) (fn (root c)) c a b) as [res t]. cbn in Hr.
+      specialize (Hd res).
+      destruct (derive V (root c) o res (op_eq c a b) (op_ne c a b)) as [v t']. cbn in *.
+      apply Forall_app. split; assumption. }
+  destruct o; cbn [ModelCmp.meth]; try exact Hord.
+  - apply meth_eq_trace.
+  - unfold ModelCmp.meth_ne. pose proof (meth_eq_trace c a b) as H.
+    destruct (meth_eq c a b); exact H.
+Qed.
+
 (** ** Derived operators are consistent: if the supplied functions all describe
     one total order (through an integer key), then every method the class
-    defines — supplied or derived by total_ordering — answers according to that
+    defines - supplied or derived by total_ordering - answers according to that
     order.  All 64 configurations. *)
 Variable key : V -> Z.
 
@@ -85,10 +172,11 @@ Lemma derived_consistent_l : forall c, construct_ok c = true ->
      forall x y, fn o x y = of_bool (honest o (key x) (key y))) ->
   forall a b, is_comparable_to c a b = true -> is_comparable_to c b a = true ->
   forall o, defined c o = true ->
-  meth c o a b = of_bool (honest o (key (w_val V a)) (key (w_val V b))).
+  fst (meth c o a b) = of_bool (honest o (key (w_val V a)) (key (w_val V b))).
 Proof.
   intros c Hok Hh a b Hab Hba o Hdef.
-  unfold ModelCmp.meth, meth_order, op_eq, op_ne, meth_ne, meth_eq, make_operator.
+  unfold ModelCmp.meth, meth_order, ModelCmp.op_eq, ModelCmp.op_ne, ModelCmp.meth_ne,
+    ModelCmp.meth_eq, ModelCmp.make_operator.
   rewrite ?Hab, ?Hba. cbn [negb].
   pose proof (Hh OEq) as Heq. pose proof (Hh OLt) as Hlt. pose proof (Hh OLe) as Hle.
   pose proof (Hh OGt) as Hgt. pose proof (Hh OGe) as Hge. clear Hh Hab Hba.
@@ -113,9 +201,13 @@ Example cmp_example :
   let x := (0, {| cv_cls := 1; cv_rank := 3 |}) in
   let y := (1, {| cv_cls := 1; cv_rank := 5 |}) in
   let z := (2, {| cv_cls := 2; cv_rank := 5 |}) in
-  cmp_case c bs x y = Some [FF; TT; TT; TT; FF; FF] /\
-  cmp_case c bs y x = Some [FF; TT; FF; FF; TT; TT] /\
-  cmp_case c bs y z = Some [NI; NI; NI; NI; NI; NI] /\
+  option_map (map fst) (cmp_case c bs x y) = Some [FF; TT; TT; TT; FF; FF] /\
+  option_map (map fst) (cmp_case c bs y x) = Some [FF; TT; FF; FF; TT; TT] /\
+  (* x <= y is derived from gt alone (one call), x < y needs gt and then != (eq) *)
+  option_map (map (fun r => map (fun e => fst (fst e)) (snd r))) (cmp_case c bs x y)
+  = Some [[OEq]; [OEq]; [OGt; OEq]; [OGt]; [OGt]; [OGt; OEq]] /\
+  (* class mismatch: NotImplemented everywhere and nothing is called *)
+  cmp_case c bs y z = Some [(NI, []); (NI, []); (NI, []); (NI, []); (NI, []); (NI, [])] /\
   cmp_case {| has_eq := false; has_lt := true; has_le := false; has_gt := false;
               has_ge := false; same_type := true |} bs x y = None.
 Proof. repeat split. Qed.
@@ -128,8 +220,8 @@ Example derived_consistent_nonvacuous :
               has_ge := false; same_type := true |} in
   forall a b : nat * cval, cv_cls (snd a) = cv_cls (snd b) ->
   forall o,
-    meth cval (interp BHonest OEq) (interp BHonest OLt) (interp BHonest OLe)
-      (interp BHonest OGt) (interp BHonest OGe) (fun x y => cv_cls x =? cv_cls y) c o a b
+    fst (meth cval (interp BHonest OEq) (interp BHonest OLt) (interp BHonest OLe)
+      (interp BHonest OGt) (interp BHonest OGe) (fun x y => cv_cls x =? cv_cls y) c o a b)
     = of_bool (honest o (cv_rank (snd a)) (cv_rank (snd b))).
 Proof.
   intros c a b Hcls o.
